@@ -1481,12 +1481,30 @@ struct array : static_array<T, D, Alloc> {
 			),
 			extensions
 		);
-		if constexpr(!(std::is_trivially_default_constructible_v<typename array::element_type> || multi::force_element_trivial_default_construction<typename array::element_type>)) {
-			adl_alloc_uninitialized_value_construct_n(this->alloc(), tmp.data_elements(), tmp.num_elements());
+		auto const release_tmp = [&] {  // tmp is a non-owning reference: give its storage back if the new array cannot be completed
+			if(tmp.num_elements() != 0) {
+				multi::allocator_traits<typename array::allocator_type>::deallocate(this->alloc(), tmp.data_elements(), static_cast<typename multi::allocator_traits<typename array::allocator_type>::size_type>(tmp.num_elements()));
+			}
+		};
+		try {
+			if constexpr(!(std::is_trivially_default_constructible_v<typename array::element_type> || multi::force_element_trivial_default_construction<typename array::element_type>)) {
+				adl_alloc_uninitialized_value_construct_n(this->alloc(), tmp.data_elements(), tmp.num_elements());
+			}
+		} catch(...) {
+			release_tmp();
+			throw;
 		}
-		if(this->num_elements() != 0 && tmp.num_elements() != 0) {  // an empty side has no common part (and its reported extents cannot be sliced)
-			auto const is = intersection(this->extensions(), extensions);
-			tmp.apply(is) = this->apply(is);  // TODO(correaa) : use (and implement) `.move();`
+		try {
+			if(this->num_elements() != 0 && tmp.num_elements() != 0) {  // an empty side has no common part (and its reported extents cannot be sliced)
+				auto const is = intersection(this->extensions(), extensions);
+				tmp.apply(is) = this->apply(is);  // TODO(correaa) : use (and implement) `.move();`
+			}
+		} catch(...) {
+			if constexpr(!(std::is_trivially_destructible_v<typename array::element_type> || multi::force_element_trivial_destruction<typename array::element_type>)) {
+				this->static_::array_alloc::destroy_n(tmp.data_elements(), tmp.num_elements());
+			}
+			release_tmp();
+			throw;
 		}
 		this->destroy();
 		this->deallocate();
@@ -1516,10 +1534,28 @@ struct array : static_array<T, D, Alloc> {
 			),
 			exs
 		);
-		this->uninitialized_fill_n(tmp.data_elements(), static_cast<typename multi::allocator_traits<typename array::allocator_type>::size_type>(tmp.num_elements()), elem);
-		if(this->num_elements() != 0 && tmp.num_elements() != 0) {  // an empty side has no common part (and its reported extents cannot be sliced)
-			auto const is = intersection(this->extensions(), exs);
-			tmp.apply(is) = this->apply(is);
+		auto const release_tmp = [&] {  // tmp is a non-owning reference: give its storage back if the new array cannot be completed
+			if(tmp.num_elements() != 0) {
+				multi::allocator_traits<typename array::allocator_type>::deallocate(this->alloc(), tmp.data_elements(), static_cast<typename multi::allocator_traits<typename array::allocator_type>::size_type>(tmp.num_elements()));
+			}
+		};
+		try {
+			this->uninitialized_fill_n(tmp.data_elements(), static_cast<typename multi::allocator_traits<typename array::allocator_type>::size_type>(tmp.num_elements()), elem);
+		} catch(...) {
+			release_tmp();
+			throw;
+		}
+		try {
+			if(this->num_elements() != 0 && tmp.num_elements() != 0) {  // an empty side has no common part (and its reported extents cannot be sliced)
+				auto const is = intersection(this->extensions(), exs);
+				tmp.apply(is) = this->apply(is);
+			}
+		} catch(...) {
+			if constexpr(!(std::is_trivially_destructible_v<typename array::element_type> || multi::force_element_trivial_destruction<typename array::element_type>)) {
+				this->static_::array_alloc::destroy_n(tmp.data_elements(), tmp.num_elements());
+			}
+			release_tmp();
+			throw;
 		}
 		this->destroy();
 		this->deallocate();
